@@ -4,6 +4,7 @@ CONSTANTS
   Conns <- TraceConns
   CacheModes <- TraceModes
   MaxSalt = 0
+  Faults = TRUE
   MaxInFlight = 0
   MaxConn = 16
 INVARIANTS Report
